@@ -838,7 +838,15 @@ func (c *check) shrinkAndWrite(seed uint64, clause, sig string) string {
 	}
 	dir := filepath.Join(verifDir, "replays")
 	os.MkdirAll(dir, 0o755)
-	path := filepath.Join(dir, fmt.Sprintf("%s-%s-%d.json", c.spec.ID, sanitize(clause), seed))
+	tag := sanitize(clause)
+	if sig != "" {
+		x := sanitize(sig)
+		if len(x) > 28 {
+			x = x[:28]
+		}
+		tag += "-" + x
+	}
+	path := filepath.Join(dir, fmt.Sprintf("%s-%s-%d.json", c.spec.ID, tag, seed))
 	rf.Replay = fmt.Sprintf("./bin/vcheck %s --replay %s", c.spec.ID, path)
 	b, _ := json.MarshalIndent(&rf, "", " ")
 	os.WriteFile(path, b, 0o644)
